@@ -77,6 +77,39 @@ static int T_eq(const struct T *x, const struct T *y) {
 	return sv_eq(&x->a, &y->a) && sv_eq(x->b, y->b) && sv_eq(&x->c, &y->c) && sv_eq(x->d, y->d);
 }
 
+
+#if VF_EXT
+/* independent reading of a complete encoding of T with additions (X.696 16): preamble, a, [b], c, then -- if the extension
+ * bit is set -- the bitmap field (length, unused bits, bitmap) and one open type per set bit.  Bit 0 is d (2 octets in this
+ * harness), every other bit is an addition this version does not know: skipped whatever it contains. */
+struct expect_ext { size_t total; int has_d; uint8_t d0, d1; };
+static int spec_valid_ext(const uint8_t *p, size_t n, struct expect_ext *e) {
+	size_t i = 1, nb, j;
+	e->has_d = 0;
+	if(n < 1) return 0;
+	if(i + 2 > n || p[i] == 0xFF) return 0; i += 2;                       /* a */
+	if(p[0] & 0x40) { if(i + 2 > n || p[i] == 0xFF) return 0; i += 2; }  /* b */
+	if(i + 2 > n || p[i] == 0xFF) return 0; i += 2;                       /* c */
+	if(p[0] & 0x80) {
+		size_t L, bm;
+		if(i >= n || p[i] == 0 || p[i] >= 0x80) return 0;
+		L = p[i]; if(i + 1 + L > n) return 0;
+		if(L == 1 && (p[i + 1] & 7)) return 0;
+		nb = (L - 1) * 8; if(nb < (size_t)(p[i + 1] & 7)) return 0; nb -= (size_t)(p[i + 1] & 7);
+		bm = i + 2; i += 1 + L;
+		for(j = 0; j < nb; j++) if(p[bm + (j >> 3)] & (0x80 >> (j & 7))) {
+			size_t l;
+			if(i >= n || p[i] >= 0x80) return 0;
+			l = p[i]; if(i + 1 + l > n) return 0;
+			if(j == 0) { if(l != 2 || p[i + 1] == 0xFF) return 0; e->has_d = 1; e->d0 = p[i + 1]; e->d1 = p[i + 2]; }
+			i += 1 + l;
+		}
+	}
+	e->total = i;
+	return 1;
+}
+#endif
+
 /* one-shot decode of arbitrary bytes, then free: report consistency, memory safety, no leak, no double free */
 void h_SEQUENCE_decode_oer(void) {
 	VF_BYTES(buf, VF_N); VF_SCALAR(size_t, size);
@@ -112,6 +145,14 @@ void h_SEQUENCE_decode_oer_chunked(void) {
 	asn_dec_rval_t one = SEQUENCE_decode_oer(0, &T_td, 0, &st1, buf, size);
 	asn_dec_rval_t r1 = SEQUENCE_decode_oer(0, &T_td, 0, &st2, buf, k);
 	VF_CANARY();
+#if VF_EXT
+	{ struct expect_ext e;
+	  if(spec_valid_ext(buf, size, &e)) {
+		struct T *t = (struct T *)st1;
+		__CPROVER_assert(one.code == RC_OK && one.consumed == e.total, "C03: a valid encoding with known and unknown additions is accepted with its full length consumed");
+		if(one.code == RC_OK) __CPROVER_assert((t->d != 0) == e.has_d && (!t->d || (t->d->v[0] == e.d0 && t->d->v[1] == e.d1)), "C03: the known addition d is decoded when its bit is set, unknown ones are skipped");
+	  } }
+#endif
 	__CPROVER_assert(r1.consumed <= k, "C05: consumed does not exceed the chunk");
 	if(one.code == RC_OK && k < one.consumed)
 		__CPROVER_assert(r1.code == RC_WMORE, "C05: a proper prefix of a valid encoding yields RC_WMORE");
